@@ -668,6 +668,48 @@ pub fn gen_program(src: &mut Src, ctx: &mut Ctx, opts: &GenOpts) -> Program {
 	for _ in 0..src.usize_in(1, 3) {
 		ops.push(Op::Callback(src.usize_in(1, internal_buffer_size * 2).min(4096)));
 	}
+	// one program in 150 ends with a loud sound through two expanding compressors in a row (ratios
+	// between 0 and 1 are documented to expand the signal): the place where f32 arithmetic overflows
+	if src.chance(1, 150) {
+		let expander = |mix: f32| FxSpec::Compressor {
+			threshold: -60.0,
+			ratio: 0.1,
+			attack_s: 0.0,
+			release_s: 0.0,
+			makeup_db: 12.0,
+			mix,
+		};
+		ops.push(Op::AddTrack(TrackSpec {
+			parent: Where::Main,
+			spatial: None,
+			volume: VSpec::fixed(0.0),
+			effects: vec![expander(1.0), expander(src.pick(&[0.0f32, 0.5, 1.0]))],
+			sends: vec![],
+			persist: false,
+			sound_capacity: 8,
+			sub_track_capacity: 8,
+		}));
+		ops.push(Op::PlayStatic(
+			Where::Track(c.tracks),
+			StaticSpec {
+				len: 64,
+				sample_rate: cur_rate,
+				content: Content::Dc(0.9, -0.9),
+				slice: None,
+				settings: SoundSettings {
+					start_time: StartSpec::Immediate,
+					start_position: Pos::Samples(0),
+					loop_region: Some(RegionSpec { start: Pos::Samples(0), end: None }),
+					reverse: false,
+					volume: VSpec::fixed(0.0),
+					rate: VSpec::fixed(1.0),
+					panning: VSpec::fixed(0.0),
+					fade_in: None,
+				},
+			},
+		));
+		ops.push(Op::Callback(internal_buffer_size.min(256) * 2));
+	}
 	Program { config, ops }
 }
 
